@@ -498,29 +498,49 @@ func (r *row) IterValues() func() (string, Value, bool) {
 }
 
 func (r *row) MapTo(v interface{}) {
-	t := reflect.TypeOf(v).Elem()
+	target := reflect.ValueOf(v)
+	if target.Kind() != reflect.Ptr || target.IsNil() || target.Elem().Kind() != reflect.Struct {
+		return
+	}
+
+	target = target.Elem()
+	t := target.Type()
 
 	for i := 0; i < t.NumField(); i++ {
-		field := t.Field(i)
+		field := target.Field(i)
+		if !field.CanSet() {
+			continue
+		}
 
-		value, exist := r.Get(LcFirst(field.Name))
-		if exist {
-			switch val := value.(type) {
-			case int, int64, int32, int16, int8:
-				i, _ := cast.ToInt64(val)
-				reflect.ValueOf(v).Elem().FieldByName(field.Name).SetInt(i.(int64))
-			case uint, uint64, uint32, uint16, uint8:
-				i, _ := cast.ToUint64(val)
-				reflect.ValueOf(v).Elem().FieldByName(field.Name).SetUint(i.(uint64))
-			case float32, float64:
-				i, _ := cast.ToFloat64(val)
-				reflect.ValueOf(v).Elem().FieldByName(field.Name).SetFloat(i.(float64))
-			case string:
-				reflect.ValueOf(v).Elem().FieldByName(field.Name).SetString(val)
-			case bool:
-				reflect.ValueOf(v).Elem().FieldByName(field.Name).SetBool(val)
-			case []byte:
-				reflect.ValueOf(v).Elem().FieldByName(field.Name).SetBytes(val)
+		value, exist := r.Get(LcFirst(t.Field(i).Name))
+		if !exist {
+			continue
+		}
+
+		switch val := value.(type) {
+		case int, int64, int32, int16, int8:
+			if i, _ := cast.ToInt64(val); field.CanInt() {
+				field.SetInt(i.(int64))
+			}
+		case uint, uint64, uint32, uint16, uint8:
+			if i, _ := cast.ToUint64(val); field.CanUint() {
+				field.SetUint(i.(uint64))
+			}
+		case float32, float64:
+			if i, _ := cast.ToFloat64(val); field.CanFloat() {
+				field.SetFloat(i.(float64))
+			}
+		case string:
+			if field.Kind() == reflect.String {
+				field.SetString(val)
+			}
+		case bool:
+			if field.Kind() == reflect.Bool {
+				field.SetBool(val)
+			}
+		case []byte:
+			if field.Kind() == reflect.Slice && field.Type().Elem().Kind() == reflect.Uint8 {
+				field.SetBytes(val)
 			}
 		}
 	}
